@@ -35,6 +35,13 @@ def make_ev(N, m, bx, via=None):
     from mc.env import box
     lo, up = box(bx, N)
     if via is None:
+        if bx in ("B1", "B2", "D"):
+            # the bounds handed over as float arrays which the caller afterwards re-uses for something else
+            lo_arr, up_arr = np.array(lo, dtype=np.double), np.array(up, dtype=np.double)
+            ev = Evolvent(lo_arr, up_arr, N, m)
+            lo_arr += 11.0
+            up_arr *= 0.25
+            return ev
         return Evolvent(lo, up, N, m)
     lo0, up0 = box(via, N)
     ev = Evolvent(lo0, up0, N, m)
